@@ -29,9 +29,13 @@ Untouched(h1, h2) ==
 \*  (i)   funding a dispute: the disputed reporter and the backers in the report's stake snapshot
 \*  (ii)  fee paid from stake: the selectors of the signing reporter
 \*  (iii) RemoveSelector: the removed selector (only its selection)
+\*        - a selector whose bonded stake (observed delegations) fell below its reporter's minimum, the reporter being full
+RemovalAllowed(e) ==
+  LET B == { i \in DOMAIN e.seltokens : e.seltokens[i].bonded } IN
+  NSum([i \in B |-> e.seltokens[i].tok], B) \prec e.repmin /\ e.nsel >= e.maxsel
 MayTouch(ev, e, hold) ==
   {e.who}
   \cup (IF ev \in {"ProposeDispute", "AddFeeToDispute"} THEN {e.rep} \cup { e.backers[i] : i \in DOMAIN e.backers } ELSE {})
   \cup (IF ev \in {"ProposeDispute", "AddFeeToDispute"} /\ e.bond THEN { a \in DOMAIN hold : hold[a].sel = e.who } ELSE {})
-  \cup (IF ev = "RemoveSelector" THEN {e.sel} ELSE {})
+  \cup (IF ev = "RemoveSelector" /\ RemovalAllowed(e) THEN {e.sel} ELSE {})
 =============================================================================
